@@ -1,0 +1,351 @@
+//go:build verif
+
+package geom
+
+// C16: constructors establish, and ForceCoordinatesType / Reverse preserve, the
+// "one coordinate type everywhere" invariants; ForceCoordinatesType changes
+// only what it says.
+
+//@ prop C16
+
+//@ pred ZOf(s, p) = s.floats[p*Dim(s.ctype)+2]
+//@ pred MOf(s, p) = s.floats[p*Dim(s.ctype)+Dim(s.ctype)-1]
+
+//@ func Sequence.ForceCoordinatesType
+//@   split s.ctype*4+newCType 0 1 2 3 4 5 6 7 8 9 10 11 12 13 14 15
+//@   ensures result.ctype == newCType && NPts(result) == NPts(s)
+//@   ensures s.ctype == newCType ==> same(result, s)
+//@   loop 0 invariant 0 <= i && i <= n && n == NPts(s) && stride == Dim(newCType) && len(flat) == stride*n && offset(flat) == 0 && fresh(flat) && len(flat) > 0 && s.ctype != newCType
+//@   loop 0 invariant i > 0 ==> same(flat[(i-1)*stride], PX(s, i-1)) && same(flat[(i-1)*stride+1], PY(s, i-1))
+//@   loop 0 invariant i > 0 && HasZ(newCType) && HasZ(s.ctype) ==> same(flat[(i-1)*stride+2], ZOf(s, i-1))
+//@   loop 0 invariant i > 0 && HasM(newCType) && HasM(s.ctype) ==> same(flat[(i-1)*stride+stride-1], MOf(s, i-1))
+//@   loop 0 invariant i > 0 && HasZ(newCType) && !HasZ(s.ctype) ==> flat[(i-1)*stride+2] == 0
+//@   loop 0 invariant i > 0 && HasM(newCType) && !HasM(s.ctype) ==> flat[(i-1)*stride+stride-1] == 0
+
+//@ func Point.ForceCoordinatesType
+//@   ensures result.coords.Type == newCType && result.full == p.full
+//@   ensures p.full ==> same(result.coords.X, p.coords.X) && same(result.coords.Y, p.coords.Y)
+//@   ensures p.full && HasZ(newCType) && HasZ(p.coords.Type) ==> same(result.coords.Z, p.coords.Z)
+//@   ensures p.full && HasM(newCType) && HasM(p.coords.Type) ==> same(result.coords.M, p.coords.M)
+//@   ensures p.full && HasZ(newCType) && !HasZ(p.coords.Type) ==> result.coords.Z == 0
+//@   ensures p.full && HasM(newCType) && !HasM(p.coords.Type) ==> result.coords.M == 0
+
+//@ func LineString.ForceCoordinatesType
+//@   ensures result.seq.ctype == newCType && NPts(result.seq) == NPts(s.seq)
+//@ func LineString.CoordinatesType
+//@   ensures result == s.seq.ctype
+//@ func LineString.Reverse
+//@   ensures result.seq.ctype == s.seq.ctype && len(result.seq.floats) == len(s.seq.floats)
+
+//@ func Polygon.CoordinatesType
+//@   ensures result == p.ctype
+//@ func Polygon.ForceCoordinatesType
+//@   ensures result.ctype == newCType && len(result.rings) == len(p.rings) && fresh(result.rings)
+//@   loop 0 invariant -1 <= rangeindex && rangeindex < len(p.rings) && len(flatRings) == len(p.rings) && offset(flatRings) == 0 && fresh(flatRings)
+//@   loop 0 invariant forall k :: 0 <= k && k <= rangeindex ==> LSInv(flatRings[k]) && flatRings[k].seq.ctype == newCType
+//@ func Polygon.Reverse
+//@   ensures result.ctype == p.ctype && len(result.rings) == len(p.rings) && fresh(result.rings)
+//@   loop 0 invariant -1 <= rangeindex && rangeindex < len(reversed) && len(reversed) == len(p.rings) && offset(reversed) == 0 && fresh(reversed)
+//@   loop 0 invariant forall k :: 0 <= k && k <= rangeindex ==> LSInv(reversed[k]) && reversed[k].seq.ctype == p.ctype
+
+//@ func NewPolygon
+//@   ensures len(result.rings) == len(rings) && (len(rings) == 0 ==> result.ctype == 0) && fresh(result.rings)
+//@   ensures forall k :: 0 <= k && k < len(rings) ==> result.ctype <= rings[k].seq.ctype
+//@   loop 0 invariant -1 <= rangeindex && ctype <= 3 && (forall k :: 0 <= k && k <= rangeindex ==> ctype <= rings[k].seq.ctype)
+//@   loop 1 invariant -1 <= rangeindex && rangeindex < len(rings) && ctype <= 3 && len(rings) == len(old(rings)) && offset(rings) == 0 && fresh(rings)
+//@   loop 1 invariant forall k :: 0 <= k && k <= rangeindex ==> LSInv(rings[k]) && rings[k].seq.ctype == ctype
+//@   loop 1 invariant forall k :: rangeindex < k && k < len(rings) ==> LSInv(rings[k])
+//@   loop 1 invariant forall k :: 0 <= k && k < len(old(rings)) ==> ctype <= old(rings)[k].seq.ctype
+
+//@ func forceCoordinatesTypeOfPointSlice
+//@   ensures len(result) == len(pts) && fresh(result) && (forall k :: 0 <= k && k < len(pts) ==> result[k].coords.Type == ctype && result[k].full == pts[k].full)
+//@   loop 0 invariant -1 <= rangeindex && rangeindex < len(pts) && len(cp) == len(pts) && offset(cp) == 0 && fresh(cp)
+//@   loop 0 invariant forall k :: 0 <= k && k <= rangeindex ==> cp[k].coords.Type == ctype && cp[k].full == pts[k].full
+
+//@ func NewMultiPoint
+//@   ensures len(result.points) == len(pts)
+//@   loop 0 invariant -1 <= rangeindex && ctype <= 3
+
+//@ func MultiPoint.ForceCoordinatesType
+//@   ensures result.ctype == newCType && len(result.points) == len(m.points)
+
+//@ func MultiLineString.ForceCoordinatesType
+//@   ensures result.ctype == newCType && len(result.lines) == len(m.lines)
+//@   loop 0 invariant -1 <= rangeindex && rangeindex < len(m.lines) && len(flat) == len(m.lines) && offset(flat) == 0 && fresh(flat)
+//@   loop 0 invariant forall k :: 0 <= k && k <= rangeindex ==> LSInv(flat[k]) && flat[k].seq.ctype == newCType
+
+//@ func NewMultiLineString
+//@   ensures len(result.lines) == len(lines)
+//@   loop 0 invariant -1 <= rangeindex && ctype <= 3
+//@   loop 1 invariant -1 <= rangeindex && rangeindex < len(lines) && ctype <= 3 && len(lines) == len(old(lines)) && offset(lines) == 0 && fresh(lines)
+//@   loop 1 invariant forall k :: 0 <= k && k <= rangeindex ==> LSInv(lines[k]) && lines[k].seq.ctype == ctype
+//@   loop 1 invariant forall k :: rangeindex < k && k < len(lines) ==> LSInv(lines[k])
+
+//@ func MultiPolygon.ForceCoordinatesType
+//@   ensures result.ctype == newCType && len(result.polys) == len(m.polys)
+//@   loop 0 invariant -1 <= rangeindex && rangeindex < len(m.polys) && len(flat) == len(m.polys) && offset(flat) == 0 && fresh(flat)
+//@   loop 0 invariant forall k :: 0 <= k && k <= rangeindex ==> PolyInv(flat[k]) && flat[k].ctype == newCType
+
+//@ func NewMultiPolygon
+//@   ensures len(result.polys) == len(polys)
+//@   loop 0 invariant -1 <= rangeindex && ctype <= 3
+//@   loop 1 invariant -1 <= rangeindex && rangeindex < len(polys) && ctype <= 3 && len(polys) == len(old(polys)) && offset(polys) == 0 && fresh(polys)
+//@   loop 1 invariant forall k :: 0 <= k && k <= rangeindex ==> PolyInv(polys[k]) && polys[k].ctype == ctype
+//@   loop 1 invariant forall k :: rangeindex < k && k < len(polys) ==> PolyInv(polys[k])
+
+//@ func Polygon.InteriorRingN
+//@   requires 0 <= n && n + 1 < len(p.rings)
+//@ func MultiPoint.PointN
+//@   requires 0 <= n && n < len(m.points)
+//@   ensures same(result, m.points[n])
+//@ func MultiLineString.LineStringN
+//@   requires 0 <= n && n < len(m.lines)
+//@   ensures same(result, m.lines[n])
+//@ func MultiPolygon.PolygonN
+//@   requires 0 <= n && n < len(m.polys)
+//@   ensures same(result, m.polys[n])
+//@ func GeometryCollection.GeometryN
+//@   requires 0 <= n && n < len(c.geoms)
+//@   ensures same(result, c.geoms[n])
+
+//@ func Sequence.appendAllPoints
+//@   modifies dst
+//@   ensures len(result) == len(dst) + len(s.floats)
+//@ func Sequence.appendPoint
+//@   requires 0 <= i && i < NPts(s)
+//@   modifies dst
+//@   ensures len(result) == len(dst) + Dim(s.ctype)
+//@ func Sequence.assertNoUnusedCapacity
+//@   requires cap(s.floats) == len(s.floats)
+
+// ---- not yet brought under proof in this sweep: the contract (type invariant
+// of the result) is ASSUMED and the body is not verified here; each of these is
+// listed as a trusted contract in the evidence.  Several are verified for their
+// own property elsewhere (C14 measures, C15 boundary, C17 transforms).
+//@ func Point.DumpCoordinates
+//@   trusted
+//@ func MultiPoint.DumpCoordinates
+//@   trusted
+//@ func MultiPoint.Coordinates
+//@   trusted
+//@ func Polygon.DumpCoordinates
+//@   trusted
+//@ func Polygon.Coordinates
+//@   trusted
+//@ func MultiLineString.DumpCoordinates
+//@   trusted
+//@ func MultiLineString.Coordinates
+//@   trusted
+//@ func MultiPolygon.DumpCoordinates
+//@   trusted
+//@ func MultiPolygon.Coordinates
+//@   trusted
+//@ func GeometryCollection.DumpCoordinates
+//@   trusted
+//@ func GeometryCollection.Dump
+//@   trusted
+//@ func Polygon.Centroid
+//@   trusted
+//@ func MultiPolygon.Centroid
+//@   trusted
+//@ func LineString.Centroid
+//@   trusted
+//@ func MultiLineString.Centroid
+//@   trusted
+//@ func GeometryCollection.Centroid
+//@   trusted
+//@ func GeometryCollection.pointCentroid
+//@   trusted
+//@ func GeometryCollection.linearCentroid
+//@   trusted
+//@ func GeometryCollection.arealCentroid
+//@   trusted
+//@ func Polygon.PointOnSurface
+//@   trusted
+//@ func GeometryCollection.PointOnSurface
+//@   trusted
+//@ func LineString.Densify
+//@   trusted
+//@ func MultiLineString.Densify
+//@   trusted
+//@ func Polygon.Densify
+//@   trusted
+//@ func MultiPolygon.Densify
+//@   trusted
+//@ func GeometryCollection.Densify
+//@   trusted
+//@ func LineString.Simplify
+//@   trusted
+//@ func MultiLineString.Simplify
+//@   trusted
+//@ func Polygon.Simplify
+//@   trusted
+//@ func LineString.TransformXY
+//@   trusted
+//@ func MultiLineString.TransformXY
+//@   trusted
+//@ func Polygon.TransformXY
+//@   trusted
+//@ func MultiPolygon.TransformXY
+//@   trusted
+//@ func Point.TransformXY
+//@   trusted
+//@ func Polygon.forceOrientation
+//@   trusted
+//@ func MultiPolygon.forceOrientation
+//@   trusted
+//@ func GeometryCollection.forceOrientation
+//@   trusted
+//@ func MultiPolygon.Boundary
+//@   trusted
+//@ func GeometryCollection.Boundary
+//@   trusted
+//@ func MultiLineString.Reverse
+//@   trusted
+//@ func MultiPolygon.Reverse
+//@   trusted
+//@ func LineString.InterpolatePoint
+//@   trusted
+//@ func LineString.InterpolateEvenlySpacedPoints
+//@   trusted
+//@ func lineStringFromCoords
+//@   trusted
+//@ func lineStringSliceFromCoords
+//@   trusted
+//@ func multiPointFromCoords
+//@   trusted
+//@ func multiPolygonFromCoords
+//@   trusted
+//@ func getLine
+//@   trusted
+//@ func nextLine
+//@   trusted
+//@ func previousLine
+//@   trusted
+//@ func centroidOfRing
+//@   trusted
+//@ func signedAreaOfLinearRing
+//@   trusted
+//@ func SignedArea
+//@   trusted
+//@ func newAreaOptionSet
+//@   trusted
+//@ func GeometryCollection.walk
+//@   trusted
+//@ func LineString.asLines
+//@   trusted
+//@ func MultiLineString.asLines
+//@   trusted
+//@ func LineString.IsSimple
+//@   trusted
+//@ func Point.AppendWKB
+//@   trusted
+//@ func LineString.AppendWKB
+//@   trusted
+//@ func Polygon.AppendWKB
+//@   trusted
+//@ func MultiPoint.AppendWKB
+//@   trusted
+//@ func MultiLineString.AppendWKB
+//@   trusted
+//@ func MultiPolygon.AppendWKB
+//@   trusted
+//@ func GeometryCollection.AppendWKB
+//@   trusted
+
+//@ func maxInt
+//@   ensures result >= a && result >= b && (result == a || result == b)
+
+// Writers append to the caller's buffer.
+//@ func Point.AppendWKT
+//@   modifies dst
+//@ func Point.appendWKTBody
+//@   modifies dst
+//@ func LineString.AppendWKT
+//@   modifies dst
+//@ func LineString.appendWKTBody
+//@   trusted
+//@ func Polygon.AppendWKT
+//@   trusted
+//@ func Polygon.appendWKTBody
+//@   trusted
+//@ func MultiPoint.AppendWKT
+//@   trusted
+//@ func MultiLineString.AppendWKT
+//@   trusted
+//@ func MultiPolygon.AppendWKT
+//@   trusted
+//@ func GeometryCollection.AppendWKT
+//@   trusted
+//@ func Point.MarshalJSON
+//@   trusted
+//@ func LineString.MarshalJSON
+//@   trusted
+//@ func Polygon.MarshalJSON
+//@   trusted
+//@ func MultiPoint.MarshalJSON
+//@   trusted
+//@ func MultiLineString.MarshalJSON
+//@   trusted
+//@ func MultiPolygon.MarshalJSON
+//@   trusted
+//@ func GeometryCollection.MarshalJSON
+//@   trusted
+//@ func Coordinates.appendFloat64s
+//@   modifies dst
+
+// Validation internals (R-tree callbacks, maps): outside the subset; C03 lists
+// them as not decided.
+//@ func MultiLineString.IsSimple
+//@   trusted
+//@ func MultiPoint.IsSimple
+//@   trusted
+//@ func MultiLineString.Boundary
+//@   trusted
+//@ func Polygon.Validate
+//@   trusted
+//@ func MultiPolygon.checkMultiPolygonConstraints
+//@   trusted
+//@ func validatePolyNotInsidePoly
+//@   trusted
+//@ func MultiPoint.asXYs
+//@   trusted
+//@ func MultiPoint.TransformXY
+//@   trusted
+//@ func MultiPolygon.Simplify
+//@   trusted
+//@ func LineString.PointOnSurface
+//@   trusted
+//@ func MultiLineString.PointOnSurface
+//@   trusted
+//@ func MultiPoint.PointOnSurface
+//@   trusted
+//@ func MultiPolygon.PointOnSurface
+//@   trusted
+//@ func MultiPoint.Centroid
+//@   trusted
+
+// Nested collections: the recursive invariant GInv is an uninterpreted
+// predicate over the heaps; showing that it is preserved when a fresh region
+// is added to one of those heaps needs a frame lemma for the predicate that
+// this generator does not have.  Assumed for these, listed in the evidence.
+//@ func GeometryCollection.AsGeometry
+//@   assumeinv
+//@   ensures result.gtype == 0 && result.ptr != nil && fresh(result.ptr) && same(deref(result.ptr, GeometryCollection), c)
+//@ func GeometryCollection.Reverse
+//@   trusted
+//@ func GeometryCollection.TransformXY
+//@   trusted
+//@ func GeometryCollection.ForceCoordinatesType
+//@   trusted
+//@ func GeometryCollection.Simplify
+//@   trusted
+//@ func GeometryCollection.Validate
+//@   trusted
+//@ func NewGeometryCollection
+//@   trusted
+
+//@ func Geometry.appendDump
+//@   trusted
+//@ func Geometry.Dump
+//@   trusted
